@@ -3,6 +3,7 @@
 stores <round dir>/<PROP>/out/{patch.diff,demo.py,notes.md,verify.txt} as seeded/<PROP>-<suffix>/ with meta.json"""
 import json, os, shutil, sys
 rd, prop, suf, init, det, summary, needs = sys.argv[1:8]
+ROUND = '8: told the ideas of rounds 1-7 and the kinds of mistake already used' if suf == 'h' else '7: told the ideas of rounds 1-6 and the kinds of mistake already used, asked for boundary / asymmetry / swapped-operand / wrong-key kinds'
 strength = sys.argv[8] if len(sys.argv) > 8 else ''
 V = os.path.dirname(os.path.dirname(os.path.abspath(__file__)))
 src = os.path.join(rd, prop, 'out')
@@ -19,7 +20,7 @@ meta = {
     'strengthening': strength,
     'kept_because': 'confirmed in a private scratch worktree of /repo HEAD: demo exits 0 without and non-zero with the patch; baseline suite 600/600 with the patch (tools/seed_verify_par.sh; its output at arrival is verify_at_arrival.txt)',
     'ran': ['tools/seed_verify_par.sh <dir> <out>  (private worktree of /repo HEAD: demo without / with the patch, baseline suite, all 20 checks with --repo)'],
-    'origin': 'written by an independent sub-agent that saw only the property text and a scratch worktree (round 7: told the ideas of rounds 1-6 and the kinds of mistake already used, asked for boundary / asymmetry / swapped-operand / wrong-key kinds)',
+    'origin': 'written by an independent sub-agent that saw only the property text and a scratch worktree (round %s)' % ROUND,
 }
 json.dump(meta, open(os.path.join(d, 'meta.json'), 'w'), indent=1)
 print('stored', d)
